@@ -12,6 +12,7 @@ package main
 // and message (changed vector / set / message, subset signing, rogue-key cancellation).
 
 import (
+	"crypto/sha512"
 	"fmt"
 	"math/big"
 	"sort"
@@ -31,6 +32,7 @@ type c14AggState struct {
 	pubDl    []*big.Int
 	signed   map[string]c14AggSigned // "R S" -> what it was produced for
 	nonces   map[string]string       // R -> challenge it was used with
+	mismatch string                  // the real transcript/coefficients/key/challenge differ from the documented scheme
 	panicked bool                    // the transcript/coefficient code panicked in the last oracle call
 }
 
@@ -95,7 +97,8 @@ func (as *c14AggState) selectedText(signers []int) string {
 	return sb.String()
 }
 
-func (as *c14AggState) oracles(signers []int) (A crypto.Key, w []*big.Int, transcript []byte, ok bool) {
+// hook: what the real transcript / coefficient / weighted-key code returns (ok=false: refused)
+func (as *c14AggState) hook(signers []int) (A crypto.Key, w []*big.Int, transcript []byte, ok bool) {
 	defer func() {
 		if e := recover(); e != nil {
 			as.panicked = true
@@ -110,6 +113,69 @@ func (as *c14AggState) oracles(signers []int) (A crypto.Key, w []*big.Int, trans
 		w = append(w, c12BytesScalar(c[:]))
 	}
 	return key, w, tr, true
+}
+
+// c14HashScalar: SHA-512 of the concatenation, read little endian, reduced mod ℓ (SetUniformBytes)
+func c14HashScalar(parts ...[]byte) *big.Int {
+	h := sha512.New()
+	for _, p := range parts {
+		h.Write(p)
+	}
+	return c12ModL(c12BytesScalar(h.Sum(nil)))
+}
+
+func c14Be32(n int) []byte { return []byte{byte(n >> 24), byte(n >> 16), byte(n >> 8), byte(n)} }
+
+// oracles computes, INDEPENDENTLY of crypto/aggregation.go, what the documented scheme prescribes
+// for a well-formed signer list: transcript = count ‖ (index ‖ key)*, wᵢ = H(domain ‖ transcript ‖
+// index ‖ key), A = Σ wᵢ•Aᵢ (through the discrete logs). The values of the real code (hook) are
+// compared with them; a difference is recorded in as.mismatch and reported by the caller.
+func (as *c14AggState) oracles(signers []int) (A crypto.Key, w []*big.Int, transcript []byte, ok bool) {
+	as.mismatch = ""
+	if !as.wellFormed(signers) {
+		return crypto.Key{}, nil, nil, false
+	}
+	domain, _ := crypto.VerifC14Domains()
+	transcript = append(transcript, c14Be32(len(signers))...)
+	for _, i := range signers {
+		transcript = append(transcript, c14Be32(i)...)
+		transcript = append(transcript, as.pubs[i][:]...)
+	}
+	a := new(big.Int)
+	for _, i := range signers {
+		wi := c14HashScalar([]byte(domain), transcript, c14Be32(i), as.pubs[i][:])
+		w = append(w, wi)
+		a.Add(a, new(big.Int).Mul(wi, as.pubDl[i]))
+	}
+	A = c12PointOf(a)
+	hA, hw, htr, hok := as.hook(signers)
+	switch {
+	case !hok:
+		as.mismatch = "the real code refuses a well-formed signer list"
+	case string(htr) != string(transcript):
+		as.mismatch = "transcript is not count ‖ (index ‖ key)*"
+	case c14JoinBig(hw) != c14JoinBig(w):
+		as.mismatch = "coefficients are not H(domain ‖ transcript ‖ index ‖ key)"
+	case hA != A:
+		as.mismatch = "aggregate key is not Σ wᵢ•Aᵢ"
+	}
+	return A, w, transcript, true
+}
+
+// challenge H(R ‖ A ‖ message), computed here and compared with the real aggregateChallenge
+func (as *c14AggState) challenge(R []byte, A crypto.Key, msg crypto.Hash) *big.Int {
+	x := c14HashScalar(R, A[:], msg[:])
+	xb, err := crypto.VerifC14AggregateChallenge(R, A[:], msg)
+	if err != nil || c12BytesScalar(xb[:]).Cmp(x) != 0 {
+		as.mismatch = "challenge is not H(R ‖ A ‖ message)"
+	}
+	return x
+}
+
+func (as *c14AggState) reportMismatch(res *Result) {
+	if as.mismatch != "" && res.PropKey == "" {
+		res.PropKey, res.PropDesc = "C14:weights-not-from-transcript", as.mismatch
+	}
 }
 
 func c14ExecAggSig(st *State, line string) Result {
@@ -142,7 +208,7 @@ func c14ExecAggSig(st *State, line string) Result {
 	case "transcript":
 		signers := c14ParseIntList(t[1])
 		as.panicked = false
-		_, _, tr, ok := as.oracles(signers)
+		_, _, tr, ok := as.hook(signers)
 		res.Out = "err"
 		if ok {
 			res.Out = "ok " + Hex(tr)
@@ -162,7 +228,11 @@ func c14ExecAggSig(st *State, line string) Result {
 			}
 		}
 		if ok != as.wellFormed(signers) {
-			res.PropKey, res.PropDesc = "C14:malformed-signers", fmt.Sprintf("signer list %s accepted=%v", t[1], ok)
+			res.PropKey, res.PropDesc = "C14:malformed-signers", fmt.Sprintf("signer list %s accepted=%v", c14Short(t[1]), ok)
+		}
+		if ok {
+			as.oracles(signers)
+			as.reportMismatch(&res)
 		}
 		if as.panicked {
 			res.Out = "panic"
@@ -200,26 +270,31 @@ func c14ExecAggSig(st *State, line string) Result {
 		if out == "panic" {
 			res.PropKey, res.PropDesc = "C14:panic", "AggregateSign panicked"
 		}
-		if out == "ok" {
-			A, w, _, ok := as.oracles(signers)
-			if !ok {
-				panic("harness: signed but the aggregate key does not exist")
-			}
-			xb, err := crypto.VerifC14AggregateChallenge(sig[:32], A[:], msg)
-			if err != nil {
-				panic(err)
-			}
-			x := c12BytesScalar(xb[:])
+		if out == "ok" && !as.wellFormed(signers) {
+			res.Out = "ok unknown " + c12BytesScalar(sig[32:]).String()
+			res.PropKey, res.PropDesc = "C14:malformed-signers", "AggregateSign accepted signer list "+c14Short(t[1])
+		} else if out == "ok" && len(ys) != len(signers) {
+			res.Out = "ok unknown " + c12BytesScalar(sig[32:]).String()
+			res.PropKey, res.PropDesc = "C14:foreign-key-signed", "AggregateSign accepted a private key list of another length"
+		} else if out == "ok" {
+			A, w, _, _ := as.oracles(signers)
+			x := as.challenge(sig[:32], A, msg)
 			S := c12BytesScalar(sig[32:])
 			// nonce sum recovered from the private keys: z = S − x·Σ wᵢ yᵢ ; R must be z•B
 			dot := new(big.Int)
 			for i, y := range ys {
-				dot.Add(dot, new(big.Int).Mul(w[i], y))
+				if y != nil {
+					dot.Add(dot, new(big.Int).Mul(w[i], y))
+				}
 			}
 			z := c12ModL(new(big.Int).Sub(S, new(big.Int).Mul(x, c12ModL(dot))))
 			zs := "unknown"
 			if p := c12PointOf(z); string(p[:]) == string(sig[:32]) {
 				zs = z.String()
+			}
+			unknownR := zs == "unknown"
+			if unknownR { // keep the bytes so that the signature can still be offered to AggregateVerify
+				zs = "x" + Hex(sig[:32])
 			}
 			wTok, zTok, xTok = c14JoinBig(w), z.String(), x.String()
 			res.Out = fmt.Sprintf("ok %s %s", zs, S)
@@ -228,18 +303,16 @@ func c14ExecAggSig(st *State, line string) Result {
 			if err := crypto.AggregateVerify(sig, as.pubs, signers, msg); err != nil {
 				res.PropKey, res.PropDesc = "C14:own-signature-rejected", "AggregateVerify refuses the signature AggregateSign just produced"
 			}
-			if zs == "unknown" {
-				res.PropKey, res.PropDesc = "C14:signature-equation", "S − x·Σwᵢyᵢ is not the discrete log of R"
+			if unknownR {
+				res.PropKey, res.PropDesc = "C14:signature-equation", "S − x·Σwᵢyᵢ is not the discrete log of R (w, x as documented: transcript-bound coefficients)"
 			}
+			as.reportMismatch(&res)
 			// the same nonce must never meet two different challenges (that would reveal Σwᵢyᵢ)
 			if prev, seen := as.nonces[zs]; seen && prev != x.String() {
 				res.PropKey, res.PropDesc = "C14:nonce-reuse", "AggregateSign used one nonce commitment R for two different challenges"
 			}
 			as.nonces[zs] = x.String()
 			as.signed[fmt.Sprintf("%s %s", zs, S)] = c14AggSigned{keys: as.selectedText(signers), signers: t[1], msg: t[4]}
-		}
-		if out == "ok" && !as.wellFormed(signers) {
-			res.PropKey, res.PropDesc = "C14:malformed-signers", "AggregateSign accepted signer list "+t[1]
 		}
 		// subset of private keys / wrong keys must not sign
 		if out == "ok" && as.wellFormed(signers) && len(ys) == len(signers) {
@@ -279,11 +352,7 @@ func c14ExecAggSig(st *State, line string) Result {
 		wTok, xTok := "-", "0"
 		want := false
 		if A, w, _, ok := as.oracles(signers); ok && sig != nil {
-			xb, err := crypto.VerifC14AggregateChallenge(sig[:32], A[:], msg)
-			if err != nil {
-				panic(err)
-			}
-			x := c12BytesScalar(xb[:])
+			x := as.challenge(sig[:32], A, msg)
 			wTok, xTok = c14JoinBig(w), x.String()
 			a := new(big.Int)
 			for i, s := range signers {
@@ -297,7 +366,7 @@ func c14ExecAggSig(st *State, line string) Result {
 		if out == "ok" {
 			res.Nontrivial = true
 			if !as.wellFormed(signers) {
-				res.PropKey, res.PropDesc = "C14:malformed-signers", "AggregateVerify accepted signer list "+t[1]
+				res.PropKey, res.PropDesc = "C14:malformed-signers", "AggregateVerify accepted signer list "+c14Short(t[1])
 			}
 			// (c) testing only: bound to what was signed
 			sg, known := as.signed[fmt.Sprintf("%s %s", t[2], S)]
@@ -308,12 +377,20 @@ func c14ExecAggSig(st *State, line string) Result {
 					sg.signers, t[1], sg.keys != as.selectedText(signers), sg.msg != t[4])
 			}
 		}
+		as.reportMismatch(&res)
 		res.LeanIn = strings.Join([]string{"verify", t[1], t[2], t[3], t[4], wTok, xTok}, " ")
 		res.Tags = append(res.Tags, "verify:"+out)
 	default:
 		panic("harness: unknown aggsig op " + t[0])
 	}
 	return res
+}
+
+func c14Short(s string) string {
+	if len(s) > 120 {
+		return s[:60] + "…" + s[len(s)-50:]
+	}
+	return s
 }
 
 func c14SizeBucket(n int) int {
@@ -341,7 +418,254 @@ func c14IntsTok(xs []int) string {
 	return strings.Join(ss, ",")
 }
 
+// ---- generator class: the same key at several indexes, tiny signer sets, cross-verification ----
+
+// c14Subsets: all k-element subsets of 0..n-1 in lexicographic order (n ≤ 7 here)
+func c14Subsets(n, k int) [][]int {
+	var out [][]int
+	var rec func(start int, cur []int)
+	rec = func(start int, cur []int) {
+		if len(cur) == k {
+			out = append(out, append([]int(nil), cur...))
+			return
+		}
+		for i := start; i < n; i++ {
+			rec(i+1, append(cur, i))
+		}
+	}
+	rec(0, nil)
+	return out
+}
+
+func c14GenDupVectorCase(r *Rand) []string {
+	sh := &State{V: map[string]any{}}
+	var lines []string
+	emit := func(l string) Result {
+		lines = append(lines, l)
+		return c14ExecAggSig(sh, l)
+	}
+	emit("reset")
+	pool := make([]*big.Int, 2+r.Intn(2))
+	for i := range pool {
+		pool[i] = c12RandScalar(r)
+	}
+	n := 2 + r.Intn(5)
+	which := make([]int, n)
+	for i := range which {
+		which[i] = r.Intn(len(pool))
+	}
+	which[n-1] = which[0] // at least one key occurs twice
+	vec := func(w []int) string {
+		toks := make([]string, len(w))
+		for i, k := range w {
+			toks[i] = c14KeyTok(pool[k])
+		}
+		return "pub " + strings.Join(toks, " ")
+	}
+	privsOf := func(w []int, signers []int) string {
+		var ps []string
+		for _, s := range signers {
+			ps = append(ps, pool[w[s]].String())
+		}
+		return strings.Join(ps, ",")
+	}
+	emit(vec(which))
+	msg := Hex(r.Bytes(32))
+	k := Pick(r, []int{1, 1, 1, 2, 2, n})
+	if k > n {
+		k = n
+	}
+	subs := c14Subsets(n, k)
+	signers := subs[r.Intn(len(subs))]
+	emit("transcript " + c14IntsTok(signers))
+	sres := emit(fmt.Sprintf("sign %s %s %s %s", c14IntsTok(signers), privsOf(which, signers), Hex(r.Bytes(32)), msg))
+	if !strings.HasPrefix(sres.Out, "ok") {
+		return lines
+	}
+	f := strings.Fields(sres.Out)
+	R, S := f[1], f[2]
+	// (when the signature does not satisfy the documented equation R is only known as bytes: the
+	// cross-verifications below are still offered to the real code)
+	emit(fmt.Sprintf("verify %s %s %s %s", c14IntsTok(signers), R, S, msg))
+	// the same signature under every other signer set of the same size
+	cnt := 0
+	for _, o := range subs {
+		if c14IntsTok(o) == c14IntsTok(signers) {
+			continue
+		}
+		emit(fmt.Sprintf("verify %s %s %s %s", c14IntsTok(o), R, S, msg))
+		if cnt++; cnt >= 12 {
+			break
+		}
+	}
+	// … and under permuted / shortened vectors, with the original list and with the list that follows the keys
+	for q := 0; q < 3; q++ {
+		perm := make([]int, n) // new position -> old position
+		for i := range perm {
+			perm[i] = i
+		}
+		switch q {
+		case 0: // rotate by one
+			for i := range perm {
+				perm[i] = (i + 1) % n
+			}
+		case 1: // reverse
+			for i := range perm {
+				perm[i] = n - 1 - i
+			}
+		default: // random transposition involving a signer
+			a, b := signers[r.Intn(len(signers))], r.Intn(n)
+			perm[a], perm[b] = perm[b], perm[a]
+		}
+		w2 := make([]int, n)
+		moved := map[int]int{} // old position -> new position
+		for i, o := range perm {
+			w2[i] = which[o]
+			moved[o] = i
+		}
+		emit(vec(w2))
+		emit(fmt.Sprintf("verify %s %s %s %s", c14IntsTok(signers), R, S, msg))
+		var follow []int
+		for _, s := range signers {
+			follow = append(follow, moved[s])
+		}
+		sort.Ints(follow)
+		if c14IntsTok(follow) != c14IntsTok(signers) {
+			emit(fmt.Sprintf("verify %s %s %s %s", c14IntsTok(follow), R, S, msg))
+		}
+	}
+	if signers[0] > 0 { // the vector loses its first entry, the signers keep their keys
+		var shifted []int
+		for _, s := range signers {
+			shifted = append(shifted, s-1)
+		}
+		emit(vec(which[1:]))
+		emit(fmt.Sprintf("verify %s %s %s %s", c14IntsTok(shifted), R, S, msg))
+	}
+	emit(vec(which))
+	// a plain (single-key) Schnorr signature replayed as a one-signer aggregate signature
+	i := r.Intn(n)
+	y := pool[which[i]]
+	yk := crypto.Key(c12ScalarBytes(y))
+	var m crypto.Hash
+	copy(m[:], UnHex(msg))
+	plain := yk.Sign(m)
+	pub := c12PointOf(y)
+	xp := c14HashScalar(plain[:32], pub[:], m[:])
+	Sp := c12BytesScalar(plain[32:])
+	zp := c12ModL(new(big.Int).Sub(Sp, new(big.Int).Mul(xp, y)))
+	if p := c12PointOf(zp); string(p[:]) == string(plain[:32]) {
+		for j := 0; j < n; j++ {
+			if which[j] == which[i] {
+				emit(fmt.Sprintf("verify %d %s %s %s", j, zp, Sp, msg))
+			}
+		}
+	}
+	return lines
+}
+
+// ---- generator class: long signer lists (65..300) with exactly one defect at a chosen position ----
+
+var c14DefectPositions = []int{1, 31, 32, 33, 63, 64, 65, 66, 127, 128, 129, 191, 192, 193, 255, 256, 257}
+
+func c14GenLongListCase(r *Rand) []string {
+	sh := &State{V: map[string]any{}}
+	var lines []string
+	emit := func(l string) Result {
+		lines = append(lines, l)
+		return c14ExecAggSig(sh, l)
+	}
+	emit("reset")
+	n := Pick(r, []int{66, 100, 128, 130, 200, 256, 258, 300})
+	privs := make([]*big.Int, n)
+	toks := make([]string, n)
+	for i := range privs {
+		privs[i] = c12RandScalar(r)
+		toks[i] = c14KeyTok(privs[i])
+	}
+	emit("pub " + strings.Join(toks, " "))
+	// sorted distinct base list of length L
+	L := 65 + r.Intn(n-64)
+	if r.Chance(1, 3) {
+		L = n
+	}
+	perm := make([]int, n)
+	for i := range perm {
+		perm[i] = i
+	}
+	for i := n - 1; i > 0; i-- {
+		j := r.Intn(i + 1)
+		perm[i], perm[j] = perm[j], perm[i]
+	}
+	base := append([]int(nil), perm[:L]...)
+	sort.Ints(base)
+	var pos []int
+	for _, p := range c14DefectPositions {
+		if p < L {
+			pos = append(pos, p)
+		}
+	}
+	pos = append(pos, L-1)
+	p := Pick(r, pos)
+	s := append([]int(nil), base...)
+	switch r.Intn(9) {
+	case 0: // no defect: a long valid list
+	case 1, 2: // duplicate at position p
+		s[p] = s[p-1]
+	case 3, 4: // one descent at position p: the sorted list rotated
+		s = append(append([]int(nil), base[L-p:]...), base[:L-p]...)
+	case 5: // out of range at position p (the list ends there)
+		if p < 64 {
+			p = 64
+		}
+		s = append(append([]int(nil), base[:p]...), n+r.Intn(2))
+	case 6: // a half repeated: [t₀..t_h-1, t₀..t_h-1]
+		h := Pick(r, []int{32, 63, 64, 65, 128})
+		if h > L {
+			h = L
+		}
+		s = append(append([]int(nil), base[:h]...), base[:h]...)
+	case 7: // the last entry of a full batch repeated: [t₀..t₆₃, t₆₃]
+		h := Pick(r, []int{64, 128, 65})
+		if h > L {
+			h = L
+		}
+		s = append(append([]int(nil), base[:h]...), base[h-1])
+	default: // a smaller index right after position p
+		s = append(append([]int(nil), base[:p]...), base[r.Intn(p)])
+	}
+	var ps []string
+	for _, i := range s {
+		if i >= 0 && i < n {
+			ps = append(ps, privs[i].String())
+		} else {
+			ps = append(ps, c12RandScalar(r).String())
+		}
+	}
+	msg := Hex(r.Bytes(32))
+	emit("transcript " + c14IntsTok(s))
+	sres := emit(fmt.Sprintf("sign %s %s %s %s", c14IntsTok(s), strings.Join(ps, ","), Hex(r.Bytes(32)), msg))
+	f := strings.Fields(sres.Out)
+	if len(f) == 3 && f[0] == "ok" && f[1] != "unknown" && !strings.HasPrefix(f[1], "x") {
+		emit(fmt.Sprintf("verify %s %s %s %s", c14IntsTok(s), f[1], f[2], msg))
+		// the valid signature of the sorted list, offered for a malformed rearrangement of the same signers
+		rot := append(append([]int(nil), s[len(s)-p%len(s):]...), s[:len(s)-p%len(s)]...)
+		emit(fmt.Sprintf("verify %s %s %s %s", c14IntsTok(rot), f[1], f[2], msg))
+		dup := append(append([]int(nil), s...), s[len(s)-1])
+		emit(fmt.Sprintf("verify %s %s %s %s", c14IntsTok(dup), f[1], f[2], msg))
+	} else {
+		emit(fmt.Sprintf("verify %s %s %s %s", c14IntsTok(s), c12RandScalar(r), c12RandScalar(r), msg))
+	}
+	return lines
+}
+
 func c14GenAggSigCase(r *Rand, idx int, tier string) []string {
+	switch r.Intn(14) {
+	case 0, 1:
+		return c14GenDupVectorCase(r.Fork())
+	case 2:
+		return c14GenLongListCase(r.Fork())
+	}
 	sh := &State{V: map[string]any{}}
 	var lines []string
 	emit := func(l string) Result {
@@ -474,6 +798,9 @@ func c14GenAggSigCase(r *Rand, idx int, tier string) []string {
 	}
 	f := strings.Fields(sres.Out)
 	R, S := f[1], f[2]
+	if strings.HasPrefix(R, "x") || R == "unknown" { // does not satisfy the documented equation: already reported
+		return lines
+	}
 	emit(fmt.Sprintf("verify %s %s %s %s", c14IntsTok(signers), R, S, msg))
 	// determinism and nonce binding: same inputs again, then another message
 	for q := 1 + r.Intn(3); q > 0; q-- {
@@ -571,7 +898,7 @@ func c14GenAggSigCase(r *Rand, idx int, tier string) []string {
 func init() {
 	Register(&Subsystem{
 		Name: "aggsig",
-		Rule: "one case = key vector (1..12 keys, 1/6 of the cases 16..300; ~8% with a nil/identity/refused entry), a signer list " +
+		Rule: "3/14 of the cases: duplicate-key vectors with tiny signer sets and cross-verification, or 65..300-entry signer lists with one positioned defect (see props/C14.json); otherwise one case = key vector (1..12 keys, 1/6 of the cases 16..300; ~8% with a nil/identity/refused entry), a signer list " +
 			"(sorted subset; ~30% unsorted, duplicated, out of range, negative or empty), AggregateSign with matching keys (~30% with a " +
 			"foreign/nil/non-canonical/missing/extra private key or a short seed), then AggregateVerify of the result and of 1..3 " +
 			"mutations (message, dropped/added signer, order, S±, R, nil, changed or permuted key vector, rogue-key cancellation); " +
